@@ -361,8 +361,12 @@ class FlagByListProvider(BaseFlagProvider):
                     raise TypeLoadError(expected_type, data)
                 process_data = (data,)
 
-            if not allow_duplicates:  # noqa: SIM102
-                if len(process_data) != len(set(process_data)):
+            if not allow_duplicates:
+                try:
+                    has_duplicates = len(process_data) != len(set(process_data))
+                except TypeError:  # unhashable items can not be member names, they are reported as bad variants below
+                    has_duplicates = False
+                if has_duplicates:
                     raise DuplicatedValuesLoadError(data)
 
             bad_variants = []
